@@ -56,3 +56,11 @@ def ff_link_with_nonbonded_span_and_itp_file_read_later(f):
 
 def bonded_residues_share_a_residue_number(f):
     return bool(f.get("resid_restart"))
+
+
+def dsdna_with_json_keys_not_ascending_along_the_strand(f):
+    return f.get("dimension") == "relabel"
+
+
+def cyclic_molecule_with_residues_outside_the_ring(f):
+    return bool(f.get("ring_with_side_chain"))
